@@ -137,7 +137,7 @@ ConfigOnlyWhenSafeStep(ev) ==
     \A a \in Acts(ev) : a.kind = "cfgChanged" => (a.prev <= a.commit /\ a.commit >= a.start)
 \* a non-voter is promoted only after it caught up in a completed round
 PromoteAfterRoundStep(ev) ==
-    \A a \in Acts(ev) : (a.kind = "action" /\ a.action = "promote") => a.rdone
+    \A a \in Acts(ev) : (a.kind = "action" /\ a.action = "promote") => (a.rdone /\ a.match >= a.rlast)
 \* a removed node shuts itself down only after its removal is committed
 StopOnlyWhenRemovedStep(ev) ==
     \A a \in Acts(ev) : a.kind = "stopped" => (a.commit >= a.cfgIndex /\ ~a.member)
